@@ -35,13 +35,25 @@ def all_modules():
 
 
 def setup():
+    """Regenerate Gen/ and build every Lean module the claimed checks need (Props + drivers)."""
     t0 = time.time()
     res = regen.regen_all(vc.REPO)
     for r in res:
         print(f'regen {r["target"]}: {"ok" if r["ok"] else "FAILED " + r["detail"]}')
-    ok, broken, dt, out = vc.lake_build(all_modules(), timeout=7200)
+    manifest = json.load(open(os.path.join(vc.VERIF, 'MANIFEST.json')))
+    targets = []
+    for c in manifest.get('checks', []):
+        pid = c['property_id']
+        targets.append(f'CopVerif.Props.{pid}')
+        try:
+            mod = importlib.import_module(f'props.{pid.lower()}')
+            targets += list(getattr(mod, 'DRIVER_TARGETS', []))
+        except Exception as e:  # noqa
+            print(f'setup: cannot import props.{pid.lower()}: {e}')
+    targets = sorted(set(targets))
+    ok, broken, dt, out = vc.lake_build(targets, timeout=7200)
     print(out[-3000:])
-    print(f'setup: lake build {"ok" if ok else "FAILED"} in {dt:.0f}s (total {time.time() - t0:.0f}s)')
+    print(f'setup: lake build of {len(targets)} targets {"ok" if ok else "FAILED"} in {dt:.0f}s (total {time.time() - t0:.0f}s)')
     return 0 if ok else 2
 
 
